@@ -54,6 +54,7 @@ type Contract struct {
 	Unfold   []*Clause
 	Lemmas   []string // names of lemmas whose statements are assumed in this function's VCs
 	Hints    []*Clause
+	OnAppend []*Clause // obligations on every error value appended in the function (bound as e)
 }
 
 type SpecFn struct {
@@ -92,7 +93,7 @@ type Specs struct {
 	Files     []string
 }
 
-var kwRe = regexp.MustCompile(`^(func|spec|lemma|axiom|datafact|requires|ensures|loop|pure|trusted|inline|byexec|transparent|frozen|allocs|assigns|reads|props|fresh|nosafety|uses|hint)\b`)
+var kwRe = regexp.MustCompile(`^(func|spec|lemma|axiom|datafact|requires|ensures|loop|pure|trusted|inline|byexec|transparent|frozen|onappend|allocs|assigns|reads|props|fresh|nosafety|uses|hint)\b`)
 
 func LoadSpecs(files []string) (*Specs, error) {
 	sp := &Specs{Contracts: map[string]*Contract{}, SpecFns: map[string]*SpecFn{}, Lemmas: map[string]*Lemma{}}
@@ -233,7 +234,7 @@ func (sp *Specs) loadFile(path string) error {
 					return fail("allocs <= K expected")
 				}
 				cur.Allocs = n
-			case "requires", "ensures", "assigns", "fresh", "hint":
+			case "requires", "ensures", "assigns", "fresh", "hint", "onappend":
 				cl, err := parseClause(kw, rest, path, rl.line)
 				if err != nil {
 					return fail("%v", err)
@@ -247,6 +248,8 @@ func (sp *Specs) loadFile(path string) error {
 					cur.Assigns = append(cur.Assigns, cl)
 				case "hint":
 					cur.Hints = append(cur.Hints, cl)
+				case "onappend":
+					cur.OnAppend = append(cur.OnAppend, cl)
 				}
 			case "loop":
 				f := strings.Fields(rest)
